@@ -28,7 +28,7 @@ package query
 //@   ensures result1 != nil ==> result0 == nil
 //@   ensures result1 == nil ==> result0 != nil && result0.BlockNumber <= blockNum
 
-//@ func (l *L1InfoTreeDataQuerier) GetProofForGER
+//@ func (l *L1InfoTreeDataQuerier) GetProofForGER (l, ctx, ger, rootFromWhichToProve)
 //@   props C09
 //@   requires l != nil && l.l1InfoTreeSyncer != nil
 //@   modifies nothing
@@ -36,7 +36,7 @@ package query
 //@   ensures[leaf-of-the-ger] result2 == nil ==> result0 != nil && result0.GlobalExitRoot == ger && result0.L1InfoTreeIndex == gerLeafIndex(ger) && result0.Timestamp == gerLeafTimestamp(ger) && result0.PreviousBlockHash == gerLeafPrevBlockHash(ger)
 //@   ensures[proof-from-that-leaf-to-the-chosen-root] result2 == nil ==> result1 == l1ProofFrom(result0.L1InfoTreeIndex, rootFromWhichToProve) && result1 == gerProofTo(ger, rootFromWhichToProve)
 
-//@ func (l *L1InfoTreeDataQuerier) CheckIfClaimsArePartOfFinalizedL1InfoTree
+//@ func (l *L1InfoTreeDataQuerier) CheckIfClaimsArePartOfFinalizedL1InfoTree (l, finalizedL1InfoTreeRoot, claims)
 //@   props C09
 //@   requires l != nil && l.l1InfoTreeSyncer != nil && finalizedL1InfoTreeRoot != nil
 //@   modifies nothing
@@ -44,11 +44,11 @@ package query
 //@   loop 0 invariant 0 <= rangeindex + 1 && rangeindex + 1 <= len(claims)
 //@   loop 0 invariant forall(k, 0, rangeindex + 1, gerLeafIndex(claims[k].GlobalExitRoot) <= finalizedL1InfoTreeRoot.Index)
 
-//@ func (l *L1InfoTreeDataQuerier) getLatestProcessedFinalizedBlock
+//@ func (l *L1InfoTreeDataQuerier) getLatestProcessedFinalizedBlock (l, ctx)
 //@   trusted
 //@   modifies nothing
 
-//@ func (l *L1InfoTreeDataQuerier) GetLatestFinalizedL1InfoRoot
+//@ func (l *L1InfoTreeDataQuerier) GetLatestFinalizedL1InfoRoot (l, ctx)
 //@   props C09
 //@   requires l != nil && l.l1InfoTreeSyncer != nil
 //@   modifies nothing
@@ -80,19 +80,19 @@ package query
 //@   modifies nothing
 //@   ensures result1 == nil ==> off(result0) == 0 && len(result0) == nClaimsOf(fromBlock, toBlock) && seq(result0) == claimsOf(fromBlock, toBlock)
 
-//@ func (b *bridgeDataQuerier) GetExitRootByIndex
+//@ func (b *bridgeDataQuerier) GetExitRootByIndex (b, ctx, index)
 //@   props C03
 //@   requires b != nil && b.bridgeSyncer != nil
 //@   modifies nothing
 //@   ensures[the-syncers-current-root] result1 == nil ==> result0 == exitRootAt[index]
 
-//@ func (b *bridgeDataQuerier) GetLastProcessedBlock
+//@ func (b *bridgeDataQuerier) GetLastProcessedBlock (b, ctx)
 //@   props C02 C03
 //@   requires b != nil && b.bridgeSyncer != nil
 //@   modifies nothing
 //@   ensures[the-syncers-current-block] result1 == nil ==> result0 == l2Synced
 
-//@ func (b *bridgeDataQuerier) GetBridgesAndClaims
+//@ func (b *bridgeDataQuerier) GetBridgesAndClaims (b, ctx, fromBlock, toBlock)
 //@   props C03
 //@   requires b != nil && b.bridgeSyncer != nil
 //@   modifies nothing
@@ -101,7 +101,7 @@ package query
 
 // the finalized root together with its leaf and the proof of that leaf to the root (what the FEP flow hands to the
 // aggchain prover): all three belong to the same leaf index
-//@ func (l *L1InfoTreeDataQuerier) GetFinalizedL1InfoTreeData
+//@ func (l *L1InfoTreeDataQuerier) GetFinalizedL1InfoTreeData (l, ctx)
 //@   props C09
 //@   requires l != nil && l.l1InfoTreeSyncer != nil
 //@   modifies nothing
